@@ -284,22 +284,37 @@ parser {
 }
 rule {
   match { state = ["added"] }
-  name "markeraddedzz" { severity = "info" }
+  name "nomatchaddedzz" {
+    severity = "info"
+    comment = "markeraddedzz"
+  }
 }
 rule {
   match { state = ["modified"] }
-  name "markermodifiedzz" { severity = "info" }
+  name "nomatchmodifiedzz" {
+    severity = "info"
+    comment = "markermodifiedzz"
+  }
 }
 rule {
   match { state = ["renamed"] }
-  name "markerrenamedzz" { severity = "info" }
+  name "nomatchrenamedzz" {
+    severity = "info"
+    comment = "markerrenamedzz"
+  }
 }
 rule {
   match { state = ["unmodified"] }
-  name "markerunmodifiedzz" { severity = "info" }
+  name "nomatchunmodifiedzz" {
+    severity = "info"
+    comment = "markerunmodifiedzz"
+  }
 }
 rule {
-  name "markerdefaultzz" { severity = "info" }
+  name "nomatchdefaultzz" {
+    severity = "info"
+    comment = "markerdefaultzz"
+  }
 }
 `
 
@@ -346,7 +361,7 @@ func c03Eval(r *hx.Run, cs c03Case) {
 		hx.Git(dir, "commit", "-q", "-m", "main moves on")
 		hx.Git(dir, "checkout", "-q", "feature")
 	}
-	res := hx.RunCmd(dir, 90*time.Second, []string{"GIT_CONFIG_GLOBAL=/dev/null"}, hx.PintBin(), "--offline", "-l", "error", "--no-color", "ci", "--base-branch", "main", "--json", "out.json")
+	res := hx.RunCmd(dir, 90*time.Second, []string{"GIT_CONFIG_GLOBAL=/dev/null"}, hx.PintBin(), "--offline", "-l", "error", "--no-color", "--show-duplicates", "ci", "--base-branch", "main", "--json", "out.json")
 	var reports []c05JSON
 	b, rerr := os.ReadFile(filepath.Join(dir, "out.json"))
 	if rerr != nil {
